@@ -201,7 +201,7 @@ fn gen_structured(rng: &mut Rng, tier: Tier) -> Sc {
         label.push_str("+flips");
     }
     scramble(rng, &mut m, flip);
-    if !m.in_domain() {
+    if !m.in_domain() || !m.has_distinct_positions() {
         // cannot happen for these constructions; fall back rather than leave the domain
         return gen_small_arbitrary(rng);
     }
@@ -737,7 +737,7 @@ impl Property for C12 {
 
     fn runs(&self, tier: Tier) -> u64 {
         match tier {
-            Tier::Quick => 60_000,
+            Tier::Quick => 200_000,
             Tier::Thorough => 3_000_000,
         }
     }
